@@ -60,7 +60,8 @@ func (cache *CacheLRU) GetTime(key string) (int64, error) {
 
 func (cache *CacheLRU) Flush() {
 	clear(cache.keys)
-	clear(cache.entries)
+	// Drop the entries (clearing the slice would leave nil entries in the heap).
+	cache.entries = cache.entries[:0]
 }
 
 func (cache *CacheLRU) Len() int {
@@ -84,6 +85,7 @@ func (cache *CacheLRU) Push(key any) {
 		unixTime: time.Now().UnixMilli(),
 		index:    n,
 	})
+	cache.keys[key.(string)] = true
 }
 
 func (cache *CacheLRU) Pop() any {
